@@ -430,6 +430,7 @@ fn parse_nested_chunks<R: Read + Seek>(
             // Skip parsing this chunk and stop
             break;
         }
+        let chunk_end = reader.stream_position()? + chunk_size as u64;
         match chunk_id {
             "MOPY" => {
                 // Read material info
@@ -573,9 +574,13 @@ fn parse_nested_chunks<R: Read + Seek>(
             }
             _ => {
                 // Skip unknown chunk
-                reader.seek(SeekFrom::Current(chunk_size as i64))?;
             }
         }
+
+        // Continue at the next sub-chunk header even when an arm consumed only part
+        // of the data (MLIQ reads just the liquid header, record sizes may not divide
+        // the chunk size evenly)
+        reader.seek(SeekFrom::Start(chunk_end))?;
     }
 
     Ok(())
